@@ -178,17 +178,18 @@ Theorem Gen_binding_rules :
 Proof. exact gen_binding_rules_ok. Qed.
 Print Assumptions Gen_binding_rules.
 
-(* A subject that spells its namespace as the empty string is not recognised as designating the account in
-   the default namespace: it keeps `namespace: ""` while the account moves (finding
-   C09/subjects/empty-namespace-subject, confirmed on the implementation). *)
-Theorem C09_subjects_empty_namespace_refuted :
+(* A subject that spells its namespace as the empty string designates the account like an absent
+   namespace does and follows it (repair R-nameref-empty-namespace-subject; before the repair this statement was
+   C09_subjects_empty_namespace_refuted, finding C09/subjects/empty-namespace-subject). *)
+Theorem C09_subjects_empty_namespace :
   exists m2 r' a',
     sj_run [sj_sa "sa1"; sj_rb [Map [("kind", sj_sc "ServiceAccount"); ("name", sj_sc "sa1"); ("namespace", sj_sc "")]]] = Ok m2 /\
     nth_error m2 0 = Some a' /\ nth_error m2 1 = Some r' /\
     get_namespace (r_node a') = "prod" /\
-    sj_subjects r' = Some (Seq [Map [("kind", sj_sc "ServiceAccount"); ("name", sj_sc "sa1"); ("namespace", sj_sc "")]]).
-Proof. exact subjects_empty_namespace_refuted. Qed.
-Print Assumptions C09_subjects_empty_namespace_refuted.
+    option_map (fun s => match s with Seq es => map (fun e => (subj_str "name" e, subj_str "namespace" e)) es | _ => [] end)
+               (sj_subjects r') = Some [("sa1", "prod")].
+Proof. exact subjects_empty_namespace_follow. Qed.
+Print Assumptions C09_subjects_empty_namespace.
 
 (* ---- C09_subjects over a whole build (Pipeline.build) ----
    Target: a kustomization whose only directive is `namespace: ns` ([ns_only ns]); its entries are well-formed
